@@ -170,11 +170,17 @@ CLAIMS["C14"] = dict(engine="renew", level="model_checking",
     note="Trusted: TLC/SANY, the python driver, FIFO wires held by the harness, hooks verif_chunk (server reader task), VerifSecureChannelState::verif_begin/end_issue_or_renew (client caller task). Crypto is real (Basic256Sha256 SignAndEncrypt); tokens are abstract numbers in the model. The two KNOWN findings (single key slot per side) are reported as KNOWN-FINDING lines, only in cases that the pinned-tree model explains step by step.",
     text="Renew.tla has one process per real task (client caller, client transport, server reader, server writer securing at write time) over FIFO wires; TLC shows that the corrected design (previous/next key slots, new token used for sending once seen) satisfies the C14 monitor for all interleavings within the bounds and that the pinned tree's single key slot violates it; every interleaving of the pinned-tree model up to the depth bound plus simulation with two renewals is replayed on a real server TcpTransport + MessageWriter and a real client SecureChannel + SecureChannelState; accept/reject of every delivery is judged by the monitor in TLC and compared with the model (zero drift required for a violation to count as the known finding).")
 
+
+CLAIMS["C38"] = dict(engine="locks", level="model_checking",
+    note="Trusted: TLC/SANY, the python driver, the lock-tracing hook (the three lock macros return a recording guard under the cfg), parking_lot's task-fair RwLock policy as modelled in Locks.tla. Limits: acquisitions not made through the macros are inventoried in the evidence but not composed; one execution per task kind (data-dependent branches are not explored); tokio scheduling is not modelled. The known findings (method Call holding the AddressSpace lock across session lookups; one SessionManager shared by all transports) are reported as KNOWN-FINDING lines.",
+    text="The acquisition program (ordered acquire/release of lock instances with modes) of every server task kind - each service of the message handler, the subscription timer body, session creation/activation/closing, transport teardown, on two connections of one real server - is recorded from the real code; Locks.tla composes every pair (thorough: plus sampled triples) of the distinct programs under task-fair RwLock semantics and TLC reports every group that can reach a state where no process can step; the class-level held->acquired relation is computed in TLA+ and every pair of classes taken in both orders is reported at the program that departs from the documented order.")
+
 NOT_APPLICABLE = {
     "C41": "identity of a third-party YAML serializer over configuration records: no state, transition or case analysis for a TLA+ specification to own, and TLC cannot enumerate the string space that matters (DESIGN.md section 5)",
     "C42": "encode/decode fidelity of serde implementations with identity as the only oracle: outside what a TLA+ model decides (DESIGN.md section 5)",
 }
 ENGINES = [
+    {"name": "locks", "path": "/verif/harness/src/e_locks.rs", "serves_properties": ["C38"], "kind_free_text": "records lock acquisition programs of every server task kind from the real code (impl -> spec); composed by spec/Locks.tla"},
     {"name": "renew", "path": "/verif/harness/src/e_renew.rs", "serves_properties": ["C14"], "kind_free_text": "replays Renew.tla task interleavings on real client/server secure channels with harness-held FIFO wires; judged by TraceRenew.tla"},
     {"name": "handshake", "path": "/verif/harness/src/e_handshake.rs", "serves_properties": ["C10", "C15"], "kind_free_text": "feeds frame sequences of Handshake.tla to a real TcpTransport; judged by TraceHandshake.tla"},
     {"name": "h_client", "path": "/verif/h_client", "serves_properties": ["C35", "C36", "C37"], "kind_free_text": "replays ClientTransport.tla / ClientAcks.tla behaviours on the real client TransportState and Session::publish; runs Backoff.tla policies on the real ExponentialBackoff"},
